@@ -577,7 +577,25 @@ pub fn replay(ctx: &Ctx, v: &Value) -> i32 {
     let src = env.source(&Content::Bytes(b"hello".to_vec()), 0o644, 1_500_000_000);
     let c = &v["case"];
     let r = match c["kind"].as_str() {
-        Some("destination") => catch(|| try_build(&src, Ok(FileOptions::new(c["destination"].as_str().unwrap_or(""))), CompressionWithLevel::None)),
+        Some("destination") => catch(|| {
+            let d = c["destination"].as_str().unwrap_or("");
+            let o = match c["entry"].as_str() {
+                Some("directory") => FileOptions::new(d).mode(rpm::FileMode::dir(0o755)),
+                Some("symbolic link") => FileOptions::new(d).mode(rpm::FileMode::symbolic_link(0o777)).symlink("target"),
+                _ => FileOptions::new(d),
+            };
+            try_build(&src, Ok(o), CompressionWithLevel::None)
+        }),
+        Some("scriptlet") => catch(|| {
+            let list: Vec<String> = c["interpreter_list"].as_array().map(|a| a.iter().map(|x| x.as_str().unwrap_or("").to_string()).collect()).unwrap_or_default();
+            let sc = rpm::Scriptlet::new(c["body"].as_str().unwrap_or("")).prog(list).flags(rpm::ScriptletFlags::EXPAND);
+            let kind = SCRIPT_KINDS.iter().find(|k| Some(**k) == c["scriptlet"].as_str()).copied().unwrap_or("pre_install");
+            crate::spec::script_call(PackageBuilder::new("t", "1", "MIT", "noarch", "s").compression(CompressionWithLevel::None), kind, sc).build().map_err(|e| err_kind(&e)).map(|p| {
+                let mut o = vec![];
+                let _ = p.write(&mut o);
+                o
+            })
+        }),
         Some("caps") => catch(|| try_build(&src, FileOptions::new("/usr/bin/f").caps(c["caps"].as_str().unwrap_or("")), CompressionWithLevel::None)),
         _ => {
             println!("re-run ./check C17 for this case kind: {}", c);
